@@ -42,6 +42,7 @@ def run(ctx, R):
     _c20_extra(F, R)                          # two strings order like the lists they denote: whole code points are compared
     pstr_positions_advance_by_bytes(F, R)
     tail_index_from_the_terminator(F, R)
+    string_locations_never_step_by_a_constant(F, R)
     literal_zero_byte_is_not_its_end(F, R)
     R.rule("RF10/RF1: every tag dispatch that names Lis names PStrLoc (and conversely) or is a listed exception")
     n_both = 0
@@ -281,3 +282,38 @@ def tail_index_from_the_terminator(F, R):
                      "inside the string" % (short(top), x["ln"]), F.where(top))
                 k += 1
     R.floor("callers of pstr_tail_idx", n, 4)
+
+
+# functions that add a constant to a string location for a reason other than stepping over a character
+CONSTANT_STEP_EXCEPTIONS = {
+    "gc": "the sweep asks its hit set for the next recorded location AFTER this one (a range bound, not a position in the text)",
+}
+
+
+def string_locations_never_step_by_a_constant(F, R):
+    """A location inside a packed string is a byte location and characters have one to four bytes: stepping over a character
+    adds its len_utf8(). `pstr_loc + 1` is right for ASCII text only — arg(2, "éa", T) then points into the middle of the
+    first character. Crate-wide: no function adds an integer literal to a local named *pstr_loc, outside the table."""
+    n = 0
+    lits = 0
+    for p, it in sorted(F.items.items()):
+        if not it["file"].startswith("src/") or it["kind"] not in ("Fn", "AssocFn"):
+            continue
+        try:
+            body = F.hir(p)["body"]
+        except AnchorLost:
+            continue
+        k = 0
+        for x in walk(body):
+            if x["k"] == "Binary" and x["op"] == "Add" and x["a"].get("k") == "Path" and re.search(r"pstr_loc$", res_name(x["a"]) or ""):
+                n += 1
+                if x["b"]["k"] == "Lit" and "int" in x["b"]["lit"]:
+                    lits += 1
+                    mod = it["file"].rsplit("/", 1)[-1][:-3]
+                    R.ob("C20:pstr-position:never-stepped-by-a-constant:%s#%d" % (short(p), k), mod in CONSTANT_STEP_EXCEPTIONS,
+                         "%s adds the constant %s to a string location (line %s): characters have one to four bytes, so the next character is at + len_utf8() of the one read"
+                         % (short(p), x["b"]["lit"]["int"], x["ln"]), F.where(p))
+                    k += 1
+    R.floor("additions to a string location", n, 8)
+    R.notes.append("additions to a *pstr_loc local: %d, of which %d add a literal (table: %s)" % (n, lits, CONSTANT_STEP_EXCEPTIONS))
+
